@@ -182,6 +182,36 @@ def monitor(ck, sc, r):
                      {"event": e})
             elif (e["topic"], e["p"]) not in owned.get(e["c"], set()):
                 viol("a record of a partition outside the adopted assignment was returned", {"event": e})
+    # a member that left the group on its own (the client sent LeaveGroup, e.g. after max_poll_interval_ms without a poll)
+    # holds a superseded assignment: once another member has been assigned one of its partitions it hands out no more
+    # records of it (0.3 s of grace: the LeaveGroup reply may still be on its way when the application polls)
+    left, adopted, taken = {}, {}, {}
+    for e in r["trace"]:
+        ev = e["ev"]
+        if ev == "leave_request":
+            c = mc.get(e.get("member"))
+            if c is not None:
+                left[c] = e["t"]
+        elif ev == "cb_revoked_begin":
+            adopted.pop(e["c"], None)
+            left.pop(e["c"], None)
+            taken.pop(e["c"], None)
+        elif ev == "cb_assigned_begin":
+            new = set(map(tuple, e["tps"]))
+            adopted[e["c"]] = new
+            left.pop(e["c"], None)
+            taken.pop(e["c"], None)
+            for other, tps in adopted.items():
+                if other != e["c"] and other in left:
+                    for tp in tps & new:
+                        taken.setdefault(other, {}).setdefault(tp, e["t"])
+        elif ev == "deliver":
+            t_taken = taken.get(e["c"], {}).get((e["topic"], e["p"]))
+            if t_taken is not None and e["t"] > t_taken + 0.3:
+                viol("a member that had left the group handed out a record of a partition another member had been "
+                     "assigned meanwhile (data of a superseded assignment; no on_partitions_revoked since)",
+                     {"event": e, "other_member_assigned_at": t_taken})
+                break
     return bad
 
 
@@ -259,6 +289,22 @@ def run(ck: Check):
                                            {"at": at + 2.0, "op": "append", "topic": "t0", "p": 4, "n": 3}],
                         "faults": {"apis": conssim.GROUP_APIS, "plan": {}}, "coordinator": 0, "max_vtime": 600.0,
                         "family": "topic-grows-leader-sees-first"})
+    # an application that stops polling for longer than max_poll_interval_ms (its client leaves the group for it), with
+    # prefetched records buffered, and polls again later
+    for j, idle in enumerate([1.5, 2.5, 4.0]):
+        for asg in (["range"], ["roundrobin"]):
+            cons = [{"name": "c0", "group": "g", "topics": ["t0"], "assignors": asg, "auto_commit": bool(j % 2),
+                     "auto_commit_interval_ms": 300, "cb_delay": 0.01, "max_poll_interval_ms": 700,
+                     "heartbeat_interval_ms": 200, "listener_kind": "async",
+                     "program": [["sleep", 0.0], ["start"], ["consume", 1.0, 0.1, 2, 0.05], ["sleep", idle],
+                                 ["consume", 4.0, 0.1, 2, 0.01], ["stop"]]},
+                    {"name": "c1", "group": "g", "topics": ["t0"], "assignors": asg, "auto_commit": True,
+                     "auto_commit_interval_ms": 300, "cb_delay": 0.01, "listener_kind": "async",
+                     "program": [["sleep", 0.3], ["start"], ["consume", idle + 6.0, 0.1, None, 0], ["stop"]]}]
+            scs.append({"id": 660000 + 2 * j + (asg[0] == "range"), "seed": 660 + j, "brokers": 1, "topics": {"t0": 2},
+                        "preload": {"t0": {"0": 60, "1": 60}}, "consumers": cons, "cluster_events": [],
+                        "faults": {"apis": conssim.GROUP_APIS, "plan": {}}, "coordinator": 0, "max_vtime": 600.0,
+                        "family": "idle-member-leaves"})
     rng_old = random.Random(ck.seed * 7121 + 505)
     scs += [conssim.old_broker(conssim.gen_scenario(rng_old, 700000 + i), rng_old) for i in range(ck.n(18, 200))]
     results = conssim.run_scenarios(scs, timeout=ck.n(900, 3000))
